@@ -1,6 +1,6 @@
 (* C16 — property theorems.  Nothing but statements, `exact`, Print Assumptions. *)
 From Coq Require Import Permutation.
-From G16 Require Import Model Check Proofs ParseProofs Roundtrip Obligations.
+From G16 Require Import Model Check Proofs ParseProofs Roundtrip WiringExpected Obligations.
 
 (* Applying a rule list computes the documented meaning: there is a chain of
    intermediate maps, each related to its predecessor by the pointwise
@@ -52,6 +52,11 @@ Theorem T16_dispatch : forall cfg h,
   dispatch cfg RespConnect h = h.
 Proof. exact (fun cfg h => conj eq_refl (conj eq_refl (conj eq_refl eq_refl))). Qed.
 Print Assumptions T16_dispatch.
+
+(* ... and the source statements that Model.dispatch transcribes are unchanged. *)
+Theorem T16_dispatch_source_unchanged : wiring = wiring_expected.
+Proof. exact ob_wiring. Qed.
+Print Assumptions T16_dispatch_source_unchanged.
 
 (* What an upstream proxy sees on a CONNECT is NOT the connect rules applied once in
    order: the wiring applies them a second time to an empty header and copies that over
